@@ -3,6 +3,7 @@ C12  Curve values carry exact sensitivities to their nodes at every derivative o
 -/
 import RateslibModel.Props.C11
 import RateslibModel.Analysis.Refine
+import RateslibModel.Analysis.Refine2
 namespace Rateslib
 open Real Expr
 open Rateslib.Dual
@@ -303,5 +304,120 @@ theorem C12_grad_zero_rate (x0 x1 x2 x : ℝ) (y1 y2 : Dual ℝ) (h1 : y1.WF) (h
     · simp only [zeroRateExpr0, evalJ, jetOf, rt, rr2, dt, e2, d2]
       simp
       ring
+
+/-! ### second order: value, gradient and Hessian of every smooth rule along any two-name direction -/
+/-- componentwise affine combination of 2-jets -/
+noncomputable def J2.lin (a b : J2) (c : ℝ) : J2 :=
+  ⟨a.v0 + (b.v0 - a.v0) * c, a.v1 + (b.v1 - a.v1) * c, a.v2 + (b.v2 - a.v2) * c⟩
+
+theorem mulF2_spec (a : Dual2 ℝ) (ha : a.WF) (c : ℝ) : ChainSpec a (Dual2.mulF a c) (a.real * c) c 0 :=
+  scaleL_spec a ha (a.real * c) c
+
+theorem linearInterp2 (x1 x2 x : ℝ) (y1 y2 : Dual2 ℝ) (h1 : y1.WF) (h2 : y2.WF) (α β : ℝ) (v w : String) :
+    (linearInterp (α := ℝ) x1 y1 x2 y2 x).WF ∧
+    dirJet α β v w (linearInterp (α := ℝ) x1 y1 x2 y2 x)
+      = J2.lin (dirJet α β v w y1) (dirJet α β v w y2) ((x - x1) / (x2 - x1)) := by
+  set c := (x - x1) / (x2 - x1)
+  have S := Dual2.sub_spec false y2 y1 h2 h1 (by simp)
+  have M := mulF2_spec (Dual2.sub false y2 y1) S.wf c
+  have A := Dual2.add_spec false y1 (Dual2.mulF (Dual2.sub false y2 y1) c) h1 M.wf (by simp)
+  refine ⟨A.wf, ?_⟩
+  show dirJet α β v w (Dual2.add false y1 (Dual2.mulF (Dual2.sub false y2 y1) c)) = _
+  apply J2.ext'
+  · simp only [dirJet, J2.lin, A.real, M.real, S.real]
+  · simp only [dirJet, J2.lin, A.den, M.den, S.den]; ring
+  · simp only [dirJet, J2.lin, A.den2, M.den2, S.den2]; ring
+
+/-- Hessian (and gradient, and value) of a straight-line look-up on second-order nodes: along every
+direction of two variable names, the 2-jet of the result is the 2-jet of the rule's formula. -/
+theorem C12_hess_linear (x1 x2 x : ℝ) (y1 y2 : Dual2 ℝ) (h1 : y1.WF) (h2 : y2.WF) (α β : ℝ) (v w : String) :
+    dirJet α β v w (linearInterp (α := ℝ) x1 y1 x2 y2 x)
+      = evalJ2 (linExpr ((x - x1) / (x2 - x1)))
+          (fun i => if i = 0 then dirJet α β v w y1 else dirJet α β v w y2) := by
+  rw [(linearInterp2 x1 x2 x y1 y2 h1 h2 α β v w).2]
+  apply J2.ext'
+  · simp only [J2.lin, linExpr, evalJ2, mulJ2, if_true]; simp
+  · simp only [J2.lin, linExpr, evalJ2, mulJ2, if_true]; simp
+  · simp only [J2.lin, linExpr, evalJ2, mulJ2, if_true]; simp
+
+theorem C12_hess_log_linear (x1 x2 x : ℝ) (y1 y2 : Dual2 ℝ) (h1 : y1.WF) (h2 : y2.WF) (α β : ℝ) (v w : String) :
+    dirJet α β v w (logLinearInterp (α := ℝ) x1 y1 x2 y2 x)
+      = evalJ2 (logLinExpr ((x - x1) / (x2 - x1)))
+          (fun i => if i = 0 then dirJet α β v w y1 else dirJet α β v w y2) := by
+  have L1 := log_spec y1 h1
+  have L2 := log_spec y2 h2
+  obtain ⟨wl, jl⟩ := linearInterp2 x1 x2 x (Dual2.log y1) (Dual2.log y2) L1.wf L2.wf α β v w
+  have E := exp_spec _ wl
+  show dirJet α β v w (Dual2.exp (linearInterp (α := ℝ) x1 (Dual2.log y1) x2 (Dual2.log y2) x)) = _
+  have hX0 : (linearInterp (α := ℝ) x1 (Dual2.log y1) x2 (Dual2.log y2) x).real
+      = ((dirJet α β v w (Dual2.log y1)).lin (dirJet α β v w (Dual2.log y2)) ((x - x1) / (x2 - x1))).v0 := by
+    rw [← jl]; rfl
+  rw [chain_dirJet E, hX0, jl, chain_dirJet L1, chain_dirJet L2]
+  apply J2.ext'
+  · simp only [J2.lin, logLinExpr, evalJ2, mulJ2, if_true, dirJet]; simp
+  · simp only [J2.lin, logLinExpr, evalJ2, mulJ2, if_true, dirJet]; simp
+  · simp only [J2.lin, logLinExpr, evalJ2, mulJ2, if_true, dirJet]; simp; ring
+
+theorem C12_hess_zero_rate (x0 x1 x2 x : ℝ) (y1 y2 : Dual2 ℝ) (h1 : y1.WF) (h2 : y2.WF) (α β : ℝ)
+    (v w : String) :
+    (x1 - x0 ≠ 0 →
+      dirJet α β v w (linearZeroInterp (α := ℝ) x0 x1 y1 x2 y2 x)
+        = evalJ2 (zeroRateExpr (-1 / (x1 - x0)) (-1 / (x2 - x0))
+            ((x - x0 - (x1 - x0)) / (x2 - x0 - (x1 - x0))) (-(x - x0)))
+            (fun i => if i = 0 then dirJet α β v w y1 else dirJet α β v w y2)) ∧
+    (x1 - x0 = 0 →
+      dirJet α β v w (linearZeroInterp (α := ℝ) x0 x1 y1 x2 y2 x)
+        = evalJ2 (zeroRateExpr0 (-1 / (x2 - x0)) (-(x - x0)))
+            (fun i => if i = 0 then dirJet α β v w y1 else dirJet α β v w y2)) := by
+  have L1 := log_spec y1 h1
+  have L2 := log_spec y2 h2
+  have R1 := mulF2_spec (Dual2.log y1) L1.wf (-1 / (x1 - x0))
+  have R2 := mulF2_spec (Dual2.log y2) L2.wf (-1 / (x2 - x0))
+  constructor
+  · intro hne
+    have hb : Transc.eqb (x1 - x0) (0 : ℝ) = false := by
+      show decide (x1 - x0 = 0) = false; exact decide_eq_false hne
+    set c := (x - x0 - (x1 - x0)) / (x2 - x0 - (x1 - x0)) with hc
+    have S := Dual2.sub_spec false _ _ R2.wf R1.wf (by simp)
+    have M := mulF2_spec _ S.wf c
+    have A := Dual2.add_spec false _ _ R1.wf M.wf (by simp)
+    have T := mulF2_spec _ A.wf (-(x - x0))
+    have E := exp_spec _ T.wf
+    have hform : linearZeroInterp (α := ℝ) x0 x1 y1 x2 y2 x
+        = Dual2.exp (Dual2.mulF (Dual2.add false (Dual2.mulF (Dual2.log y1) (-1 / (x1 - x0)))
+            (Dual2.mulF (Dual2.sub false (Dual2.mulF (Dual2.log y2) (-1 / (x2 - x0)))
+              (Dual2.mulF (Dual2.log y1) (-1 / (x1 - x0)))) c)) (-(x - x0))) := by
+      simp only [linearZeroInterp, hb, NumOps.add, NumOps.sub, NumOps.mulF, NumOps.log, NumOps.exp]
+      rfl
+    rw [hform, chain_dirJet E, chain_dirJet T]
+    apply J2.ext'
+    · simp only [zeroRateExpr, evalJ2, mulJ2, if_true, dirJet, T.real, A.real, M.real, S.real, R1.real,
+        R2.real, L1.real, L2.real]
+      simp
+    · simp only [zeroRateExpr, evalJ2, mulJ2, if_true, dirJet, T.real, A.real, M.real, S.real, R1.real,
+        R2.real, L1.real, L2.real, A.den, M.den, S.den, R1.den, R2.den, L1.den, L2.den]
+      simp; ring
+    · simp only [zeroRateExpr, evalJ2, mulJ2, if_true, dirJet, T.real, A.real, M.real, S.real, R1.real,
+        R2.real, L1.real, L2.real, A.den, M.den, S.den, R1.den, R2.den, L1.den, L2.den, A.den2, M.den2,
+        S.den2, R1.den2, R2.den2, L1.den2, L2.den2]
+      simp; ring
+  · intro heq
+    have hb : Transc.eqb (x1 - x0) (0 : ℝ) = true := by
+      show decide (x1 - x0 = 0) = true; exact decide_eq_true heq
+    have T := mulF2_spec _ R2.wf (-(x - x0))
+    have E := exp_spec _ T.wf
+    have hform : linearZeroInterp (α := ℝ) x0 x1 y1 x2 y2 x
+        = Dual2.exp (Dual2.mulF (Dual2.mulF (Dual2.log y2) (-1 / (x2 - x0))) (-(x - x0))) := by
+      simp only [linearZeroInterp, hb, NumOps.mulF, NumOps.log, NumOps.exp]
+      rfl
+    rw [hform, chain_dirJet E, chain_dirJet T]
+    apply J2.ext'
+    · simp only [zeroRateExpr0, evalJ2, mulJ2, dirJet, T.real, R2.real, L2.real]
+      simp
+    · simp only [zeroRateExpr0, evalJ2, mulJ2, dirJet, T.real, R2.real, L2.real, R2.den, L2.den]
+      simp; ring
+    · simp only [zeroRateExpr0, evalJ2, mulJ2, dirJet, T.real, R2.real, L2.real, R2.den, L2.den, R2.den2,
+        L2.den2]
+      simp; ring
 
 end Rateslib
